@@ -534,5 +534,148 @@ theorem adequate_unmark {X : SetOracle} (hX : IterPerm X) {σ : Sched} (hσ : Sc
       exact h2 _ this rfl
     simp only [h1, marksOpt, this, if_true]
 
+/-! ### the remark transform -/
+
+/-- a member is determined by its step -/
+theorem kid_of_step {X : SetOracle} (hX : IterPerm X) (v : Value) (hs : shapedV v = true)
+    (c c0 : PathStep × Value) (hc : c ∈ kids X v) (hc0 : c0 ∈ kids X v) (h : c.1 = c0.1) : c = c0 := by
+  by_cases hset : notSet v.ty = true
+  · obtain ⟨i, hi⟩ := List.getElem?_of_mem hc
+    obtain ⟨j, hj⟩ := List.getElem?_of_mem hc0
+    have h1 := equals_head v hs hset i j c c0 hi hj [] []
+    have h2 := equals_head v hs hset i i c c hi hi [] []
+    rw [← h] at h1
+    rw [h2] at h1
+    simp only [if_true, Path.equals] at h1
+    by_cases hij : i = j
+    · subst hij; rw [hi] at hj; exact Option.some.inj hj
+    · simp [hij] at h1
+  · -- a set: the step is the member
+    obtain ⟨i, hi⟩ := List.getElem?_of_mem hc
+    have hk := (kids_eq_children hi).2.2
+    rw [hk] at hc hc0
+    clear hk hi
+    obtain ⟨t, p⟩ := v
+    cases t <;> (try (simp [notSet] at hset; done))
+    rename_i e
+    simp only [Value.unmark] at hc hc0
+    cases hp : p.unmark1 <;> simp only [hp, children, List.not_mem_nil] at hc hc0
+    have key : ∀ (ms : List Payload) (c : PathStep × Value), c ∈ setKids e ms →
+        c.1 = .index c.2 := by
+      intro ms
+      induction ms with
+      | nil => intro c h; simp [setKids] at h
+      | cons m ms ih =>
+        intro c h
+        simp only [setKids, List.mem_cons] at h
+        rcases h with rfl | h
+        · rfl
+        · exact ih c h
+    have k1 := key _ c hc
+    have k2 := key _ c0 hc0
+    rw [k1, k2] at h
+    simp only [PathStep.index.injEq] at h
+    obtain ⟨s, w⟩ := c
+    obtain ⟨s0, w0⟩ := c0
+    simp only at k1 k2 h
+    subst k1 k2 h
+    rfl
+
+open Classical in
+/-- **the remark transform restores the marks**: run on the stripped value with a
+list that answers, for every position below, with that position's marks, it
+returns the value -/
+theorem transformFuel_remark {X : SetOracle} (hX : IterPerm X) {σ : Sched} (hσ : SchedOk σ)
+    (pvm : List PVM) :
+    ∀ (f : Nat) (n : Value), (strip n).v.depth < f → Good X n → ∀ (path : Path),
+      (∀ r m q, nodeAt X n r = some m → pathAt X n r = some q →
+        findPVM X (path ++ q) pvm = .ok (marksOpt m)) →
+      ∃ evs, ∀ log, transformFuel X σ (markT X pvm) f log path (strip n) = (log ++ evs, .ok n)
+  | 0, _, h, _ => by omega
+  | f + 1, n, hd, hg => by
+    intro path hadeq
+    have hks := kids_strip hX n hg.shaped
+    -- the members, one by one
+    have hkid : ∀ c ∈ kids X n, ∃ evs, ∀ log,
+        transformFuel X σ (markT X pvm) f log (path ++ [c.1]) (strip c.2) = (log ++ evs, .ok c.2) := by
+      intro c hc
+      obtain ⟨i, hi⟩ := List.getElem?_of_mem hc
+      have hc' : (c.1, strip c.2) ∈ kids X (strip n) := by
+        rw [hks]; exact List.mem_map.mpr ⟨c, hc, rfl⟩
+      refine transformFuel_remark hX hσ pvm f c.2
+        (by have := kids_depth_lt hX (strip n) _ hc'; simp only at this; omega)
+        (kids_good hX n hg c hc) (path ++ [c.1]) ?_
+      intro r m q hm hq
+      have := hadeq (i :: r) m (c.1 :: q) (by rw [nodeAt_cons hi]; exact hm)
+        (by rw [pathAt_cons hi, hq]; rfl)
+      simpa [List.append_assoc] using this
+    -- the original member behind a stripped one
+    let orig : PathStep × Value → PathStep × Value := fun c' =>
+      if h : ∃ c ∈ kids X n, c' = (c.1, strip c.2) then choose h else c'
+    have horig : ∀ c ∈ kids X n, orig (c.1, strip c.2) = c := by
+      intro c hc
+      have hex : ∃ c0 ∈ kids X n, (c.1, strip c.2) = (c0.1, strip c0.2) := ⟨c, hc, rfl⟩
+      have hor : orig (c.1, strip c.2) = choose hex := dif_pos hex
+      rw [hor]
+      have hsp := choose_spec hex
+      exact (kid_of_step hX n hg.shaped c (choose hex) hc hsp.1 (Prod.mk.inj hsp.2).1).symm
+    let g : PathStep × Value → Value := fun c' => (orig c').2
+    let ev : PathStep × Value → List Ev := fun c' =>
+      if h : ∃ evs, ∀ log, transformFuel X σ (markT X pvm) f log (path ++ [c'.1]) c'.2 =
+        (log ++ evs, .ok (g c')) then choose h else []
+    have ih : ∀ c' ∈ kids X (strip n), ∀ log,
+        transformFuel X σ (markT X pvm) f log (path ++ [c'.1]) c'.2 = (log ++ ev c', .ok (g c')) := by
+      intro c' hc' log
+      rw [hks] at hc'
+      obtain ⟨c, hc, rfl⟩ := List.mem_map.mp hc'
+      have hex : ∃ evs, ∀ log, transformFuel X σ (markT X pvm) f log (path ++ [c.1]) (strip c.2) =
+          (log ++ evs, .ok (g (c.1, strip c.2))) := by
+        obtain ⟨evs, hevs⟩ := hkid c hc
+        refine ⟨evs, fun log => ?_⟩
+        simp only [g, horig c hc]
+        exact hevs log
+      simp only [ev, dif_pos hex]
+      exact choose_spec hex log
+    have hty : ∀ c' ∈ kids X (strip n), (g c').ty = c'.2.ty := by
+      intro c' hc'
+      rw [hks] at hc'
+      obtain ⟨c, hc, rfl⟩ := List.mem_map.mp hc'
+      simp only [g, horig c hc]
+      rfl
+    have hsetv : ∀ e, (strip n).ty = .set e → ∀ c' ∈ kids X (strip n), g c' = c'.2 := by
+      intro e he c' hc'
+      rw [hks] at hc'
+      obtain ⟨c, hc, rfl⟩ := List.mem_map.mp hc'
+      simp only [g, horig c hc]
+      exact (set_kid_strip hX n hg.shaped e he c hc).symm
+    have hmapg : (kids X (strip n)).map g = (kids X n).map (·.2) := by
+      rw [hks, List.map_map]
+      apply List.map_congr_left
+      intro c hc
+      simp only [Function.comp, g, horig c hc]
+    have hen : ∀ l, (markT X pvm).enter l path (strip n) = .ok (strip n) := fun _ => rfl
+    refine ⟨.enter path (strip n) :: (mapEvKids ev (ordKids X σ path (strip n)) ++
+      [.exit path n.unmark]), fun log => ?_⟩
+    simp only [transformFuel, hen]
+    rw [rebuild_map hX hσ _ ev g (strip n) hg.strip path hty hsetv ih, hmapg,
+      withKids_strip_restore n hg.shaped]
+    have hfind := hadeq [] n [] rfl rfl
+    simp only [List.append_nil] at hfind
+    have hex : ∀ l, (markT X pvm).exit l path n.unmark = .ok n := by
+      intro l
+      simp only [markT, hfind, Res.map, marksOpt]
+      by_cases hm : n.marks = []
+      · simp only [hm, if_true]
+        have hnm : n.isMarked = false := by
+          have hsh := hg.shaped
+          obtain ⟨t, p⟩ := n
+          cases p <;> simp_all [Value.marks, Payload.marks1, Value.isMarked, Payload.isMarked, shapedV,
+            shaped]
+        rw [unmark_of_not_marked n hnm]
+      · simp only [hm, if_false]
+        exact congrArg Res.ok (withMarks_restore hg.shaped)
+    simp only [hex]
+    simp [List.append_assoc]
+
 end Walk
 end CtyModel
